@@ -5,6 +5,15 @@ HERE = os.path.dirname(os.path.abspath(__file__))
 BASELINE = "cd /repo && /venv/bin/python -m pytest -ra -q -p no:cacheprovider --timeout=900 --continue-on-collection-errors"
 
 CLAIMED = {
+    : dict(
+        design='4.20',
+        text='Deductive proof of the dimension algebra kernel: each dispatch handler of SI.Quantity (unary, add-like, mul-like, div-like, laplace, sqrt, setitem, pow-like, unary-op, '
+             'binary-op, stack-like, curvature, field, interp, sample; real bodies incl. Quantity.__unpack) returns wrap(prescribed dimension, op(unwrapped values)) for arbitrary rational '
+             'exponent vectors and raises DimensionError exactly when dimensions that must agree differ; Dimension.__mul__/__truediv__/_binop/__pow__ compute exponents pointwise, '
+             'Dimension.wrap returns the bare value exactly for the dimensionless class; the @register dispatch table (read from the AST on every run) equals the expected map of ~95 callables to rules.',
+        note='Wrapped numpy/nutils functions are uninterpreted (a handler is checked to call op once on the unwrapped values). Algebra contracts are BOUNDED to two named bases (labelled). '
+             'Not covered: from_powers naming/interning, unit string parsing/formatting round trip, float values in reference units, __locate/__attribute/evaluate handler bodies.',
+        technique='contract-based deductive verification (ast->z3) of the handler bodies; ground comparison of the decorator table'),
     'C07': dict(
         design='4.7',
         text='Kernel only (shape calculus of indexing). Deductive proof: function._takeslice selects exactly range(n)[s] for every axis length and every present/absent, positive/negative, '
@@ -107,7 +116,7 @@ NOT_APPLICABLE = {
     'C02': 'whole-DAG faithful translation into generated numpy programs: no function-level postcondition carries it; would need a denotational semantics of ~150 node classes and of the generated code (DESIGN 4.2)',
     'C03': 'history/non-interference property of a program that exists only as a generated string; no per-function contract expresses it (DESIGN 4.3)',
 }
-PENDING = ['C04', 'C08', 'C10', 'C16', 'C18', 'C19', 'C20']
+PENDING = ['C04', 'C08', 'C10', 'C16', 'C18', 'C19']
 
 
 def main():
